@@ -8,8 +8,11 @@ stimuli
 
     lst   stdout chunk(s) with the "Opening Control listener ..." line (optionally split)
     lst2  a second stdout chunk containing the listener phrase (retry after a failed connect)
-    out   stdout chunk "Bootstrapped 100% (done): Done"  (NOT a control-port report)
+    out   stdout output ending in "Bootstrapped 100% (done): Done"  (NOT a control-port report)
     err   stderr output
+          (both carry varied bytes, chosen per case: ASCII, Latin-1 / arbitrary binary (not UTF-8), NUL bytes,
+          valid multi-byte UTF-8, > 1 KiB / > 8 KiB of it ending 0-2 bytes past a character boundary, a
+          partial line, one text split over several writes - also in the middle of a character)
     cok / cfail, cok2 / cfail2   the pending control connection attempt succeeds / fails
     own+ / own- / own!   the held TAKEOWNERSHIP is answered 250 / 5xx / the control connection drops instead
     rst+ / rst- / rst!   the same for the held RESETCONF __OwningControllerProcess
@@ -84,7 +87,8 @@ ASSUMPTIONS = [
     "FakeTor emits STATUS_CLIENT events only after an authenticated SETEVENTS subscribed them; commands are answered "
     "at once unless the schedule holds TAKEOWNERSHIP / RESETCONF",
     "a launch that never completes (listener phrase split across stdout chunks, no stimulus) is counted, not judged",
-    "exceptions documented or logged by design (stderr RuntimeError, log.err of the exit reason) are counted, not judged",
+    "exceptions documented or logged by design (stderr RuntimeError, log.err of the exit reason) and "
+    "UnicodeDecodeError escaping outReceived/errReceived on undecodable process output are counted, not judged",
     "launch(control_port=0) returns at once by design: its launch Deferred is counted, not judged; its process "
     "protocol's when_connected() Deferreds are judged like any other",
     "a when_connected() Deferred that stays pending is judged only once the launch has failed and the process has ended",
@@ -112,6 +116,7 @@ FLOORS = {
               "control_connections_retried": 80, "control_connections_dropped_mid_ownership": 600,
               "dialogue_commands_stalled": 30, "late_observers_compared_with_first_outcome": 10000,
               "timeouts_judged_after_failed_attempts_at_later_instants": 300,
+              "stderr_stimuli_undecodable": 1500, "stderr_stimuli_decodable": 1000,
               "caller_dir_supplied_via_torconfig": 400, "process_protocols_driven_directly": 120,
               "launch_without_control_port": 30, "observers_checked_for_pending_after_failure": 15000,
               "reach:txtorcon.controller:TorProcessProtocol._maybe_notify_connected": 6000,
@@ -305,6 +310,52 @@ def enumerate_stall_schedules(extra, atoms=None):
     return out
 
 
+# ---------------------------------------------------------------------------
+# byte content of the stdout / stderr stimuli (pure)
+
+# kinds whose bytes (or whose last 2^n bytes, or whose single writes) are not valid UTF-8
+UNDECODABLE_KINDS = ("latin1", "binary", "long-utf8", "huge-utf8", "split-mid-char")
+BYTE_KINDS = ["ascii", "latin1", "binary", "nul", "utf8", "long-utf8", "huge-utf8", "partial-line",
+              "split-writes", "split-mid-char"]
+
+
+def payload(kind, pad=0, tail=b""):
+    """the writes (list of byte strings) one out / err stimulus consists of; `tail` is appended as the
+    last line (stdout: the Bootstrapped-100% line)"""
+    pad_b = b"a" * pad
+    if kind == "latin1":
+        chunks = [b"[warn] R\xe9pertoire de donn\xe9es /tmp/donn\xe9es introuvable\n"]
+    elif kind == "binary":
+        chunks = [b"[err] " + bytes(range(256)) + b"\xff\xfe\n"]
+    elif kind == "nul":
+        chunks = [b"[warn] nul\x00inside\x00\n"]
+    elif kind == "utf8":
+        chunks = ["[warn] données déplacées \u2713 \u20ac \U0001f9c5\n".encode("utf8")]
+    elif kind == "long-utf8":
+        # > 1 KiB of 3-byte characters; a tail of 2^n bytes starts `pad` bytes off a character boundary
+        chunks = [("\u20ac" * 700).encode("utf8") + pad_b + b"\n"]
+    elif kind == "huge-utf8":
+        chunks = [("[warn] " + "\u20ac\u00e9x" * 3000).encode("utf8") + pad_b + b"\n"]
+    elif kind == "partial-line":
+        chunks = [b"[warn] no newline at the end of this"]
+    elif kind == "split-writes":
+        text = b"[warn] one message that arrives in several small writes\n"
+        chunks = [text[i:i + 7] for i in range(0, len(text), 7)]
+    elif kind == "split-mid-char":
+        text = "[warn] coup\u00e9 au milieu d'un caract\u00e8re \u20ac\n".encode("utf8")
+        cut = text.index(b"\xc3") + 1
+        cut2 = text.index(b"\xe2") + 2
+        chunks = [text[:cut], text[cut:cut2], text[cut2:]]
+    else:
+        chunks = [b"[warn] Something happened\n"]
+    if tail:
+        if len(chunks) == 1 and chunks[0].endswith(b"\n"):
+            chunks = [chunks[0] + tail]
+        else:
+            chunks = chunks + [(b"" if chunks[-1].endswith(b"\n") else b"\n") + tail]
+    return chunks
+
+
 # configuration variants (rotated over the schedules, chosen by the seeded rnd)
 CTL = ["default-unix", "tcp", "unix-explicit"]
 CREATOR = ["reactor", "custom"]
@@ -335,6 +386,9 @@ def variant(rnd, dd, **fixed):
         "pace": rnd.choice([0, 1, 2, 3, 3]),
         "mode": "launch",
         "wc_from": 0,
+        "outb": rnd.choice(BYTE_KINDS[:3] + BYTE_KINDS),
+        "errb": rnd.choice(BYTE_KINDS + ["latin1", "long-utf8", "binary"]),
+        "pad": rnd.choice([0, 1, 2]),
         "via": rnd.choice(["launch", "launch", "launch_tor"]),     # route used when dd == "config"
     }
     v.update(fixed)
@@ -836,14 +890,29 @@ class Run(object):
         elif atom == "out":
             if not live:
                 return False
-            self.emit_out(STAMP + b"Bootstrapped 100% (done): Done\n")
+            kind = self.case.get("outb", "ascii")
+            self.rec.seen("stdout_byte_kinds", kind)
+            for chunk in payload(kind, self.case.get("pad", 0), STAMP + b"Bootstrapped 100% (done): Done\n"):
+                e = proc.emit_out(chunk)
+                if e is not None:
+                    if isinstance(e, UnicodeDecodeError):
+                        self.rec.count("stdout_undecodable_exceptions")     # counted, not judged
+                    else:
+                        self.escaped.append(("stdout", e))
         elif atom == "err":
             if not live:
                 return False
-            e = proc.emit_err(b"[warn] Something on stderr\n")
-            if e is not None:
+            kind = self.case.get("errb", "ascii")
+            self.rec.seen("stderr_byte_kinds", kind)
+            self.rec.count("stderr_stimuli_%s" % ("undecodable" if kind in UNDECODABLE_KINDS else "decodable"))
+            for chunk in payload(kind, self.case.get("pad", 0)):
+                e = proc.emit_err(chunk)
+                if e is None:
+                    continue
                 if isinstance(e, RuntimeError) and self.case["kos"] and "stderr" in str(e):
                     self.rec.count("documented_stderr_exceptions")
+                elif isinstance(e, UnicodeDecodeError):
+                    self.rec.count("stderr_undecodable_exceptions")         # counted, not judged
                 else:
                     self.escaped.append(("stderr", e))
         elif atom in ("cok", "cok2"):
@@ -1095,7 +1164,9 @@ class Run(object):
                     self.V("term-signalled-after-bootstrap-complete", ocls, {"signals_sent_on_timeout": new})
         # (4) failure is due
         if self.launch_failed_due == "exit" and self.L is not None and not self.L.fired:
-            self.V("launch-not-failed-after-process-end", ocls, {"atom": atom})
+            self.V("launch-not-failed-after-process-end",
+                   ocls + ("+undecodable-stderr-before-exit" if "err" in self.applied
+                           and self.case.get("errb") in UNDECODABLE_KINDS else ""), {"atom": atom})
         if self.launch_failed_due == "timeout" and self.exited_at is not None and self.L is not None \
                 and not self.L.fired:
             self.V("launch-not-failed-after-timeout", ocls, {"atom": atom})
